@@ -328,6 +328,16 @@ def np_call(E: Engine, path, node, st):
     args = node.args
     if path in NP_EXT:
         return NP_EXT[path](E, node, st)
+    if path == "builtin.type" and len(args) == 1:
+        from .engine import TypeOf
+        v = E.ev(args[0], st)
+        if isinstance(v, (Ref, Arr)):
+            return TypeOf("ndarray")
+        if isinstance(v, tuple):
+            return TypeOf("tuple")
+        if v is None:
+            return TypeOf("NoneType")
+        return TypeOf({"int": "int", "real": "float", "bool": "bool"}.get(sort_kind(v), "object"))
     if path == "builtin.int":
         return trunc(E.ev(args[0], st))
     if path == "builtin.float":
